@@ -133,6 +133,14 @@ MergeSpec(ins) ==
            b == ins[Len(ins)]
        IN [n \in DOMAIN a \cup DOMAIN b |-> IF n \in DOMAIN b THEN b[n] ELSE a[n]]
 
+(* the list builders relation lists are written with: SAdd(l1, ..., ln) and    *)
+(* recv.Add(l1, ..., ln) are the union of their operands, in order, without   *)
+(* duplicates (recv.Add() with nothing to add is recv itself)                 *)
+RECURSIVE ConcatAll(_)
+ConcatAll(ls) == IF ls = <<>> THEN <<>> ELSE ls[1].v \o ConcatAll(Tail(ls))
+SAddSpec(ls) == SUniq(ConcatAll(ls))
+SAddRecvSpec(recv, ls) == IF ls = <<>> THEN recv.v ELSE SUniq(recv.v \o ConcatAll(ls))
+
 (* what the PROPERTY needs of a built state: its relation targets and flags   *)
 (* (order and nil-ness are conformance detail)                                *)
 SameMeaning(x, y) ==
